@@ -17,7 +17,7 @@ RULE = (
     "breadth-first over histories of plan edits and user actions on outputs (overwrite, replace by a "
     "directory, delete, adopt as static, drop a foreign file next to it), crossed with clean / "
     "no-clean / targets / keep-going / a failing step; every remove and rmdir issued by the "
-    "director's cleanup or by `stepup clean` is intercepted before it executes and judged; the "
+    "director's cleanup or by `stepup clean` (asked from the root or from outside the project) is intercepted before it executes and judged; the "
     "rebuild after every single plan edit is also drained at every quiescent point (one "
     "deviation) and must then remove nothing; non-trivial: at least one removal was attempted, or "
     "a build was drained"
